@@ -709,9 +709,10 @@ impl Update {
         } else {
             Vec::new()
         };
-        // Update the rows.
-        for value_refs in rows.iter_mut() {
-            let should_update = match self.condition {
+        // Work out which rows the update applies to.
+        let matches: Vec<bool> = rows
+            .iter()
+            .map(|value_refs| match self.condition {
                 Some(ref expr) => {
                     let values: Vec<Value> = value_refs
                         .iter()
@@ -721,16 +722,71 @@ impl Update {
                     expr.eval(&row).to_bool()
                 }
                 None => true,
-            };
-            if should_update {
-                for (column_name, value) in self.updates.iter() {
-                    let index =
-                        table.index_for_column_name(column_name).unwrap();
+            })
+            .collect();
+        // If a primary key column is being assigned, make sure that the rows
+        // will still have distinct keys before changing anything.
+        let key_indices = table.primary_key_indices();
+        let updated_indices: Vec<usize> = self
+            .updates
+            .iter()
+            .map(|(name, _)| table.index_for_column_name(name).unwrap())
+            .collect();
+        let updates_key =
+            updated_indices.iter().any(|index| key_indices.contains(index));
+        if updates_key {
+            let mut keys_set = HashSet::<Vec<Value>>::new();
+            for (value_refs, &matched) in rows.iter().zip(matches.iter()) {
+                let keys: Vec<Value> = key_indices
+                    .iter()
+                    .map(|&key_index| {
+                        let assigned = if matched {
+                            updated_indices
+                                .iter()
+                                .rposition(|&index| index == key_index)
+                        } else {
+                            None
+                        };
+                        match assigned {
+                            Some(position) => normalize_value(
+                                self.updates[position].1.clone(),
+                            ),
+                            None => {
+                                value_refs[key_index].to_value(string_pool)
+                            }
+                        }
+                    })
+                    .collect();
+                if !keys_set.insert(keys.clone()) {
+                    already_exists!(
+                        "Update would give table {:?} multiple rows with \
+                         key {:?}",
+                        self.table_name,
+                        keys
+                    );
+                }
+            }
+        }
+        // Update the rows.
+        for (value_refs, &matched) in rows.iter_mut().zip(matches.iter()) {
+            if matched {
+                for (&index, (_, value)) in
+                    updated_indices.iter().zip(self.updates.iter())
+                {
                     let value_ref = &mut value_refs[index];
                     value_ref.remove(string_pool);
                     *value_ref = ValueRef::create(value.clone(), string_pool);
                 }
             }
+        }
+        // Rows are stored in ascending order of their keys.
+        if updates_key {
+            rows.sort_by_cached_key(|value_refs| -> Vec<Value> {
+                key_indices
+                    .iter()
+                    .map(|&index| value_refs[index].to_value(string_pool))
+                    .collect()
+            });
         }
         // Write the table back out to the file.
         let stream = comp.create_stream(&stream_name)?;
